@@ -456,8 +456,6 @@ package fzf
 
 // Terminal helpers used by the GET handler; their own behaviour belongs to other properties.
 //@ func Terminal.tryLock trusted
-//@ func Terminal.sortSelected trusted
-//@ ensures fresh(result)
 //@ func Terminal.dumpItem trusted
 
 //@ func Terminal.currentItem
